@@ -229,7 +229,7 @@ def run(ctx):
         "assumption of the design); per-declaration wrap flags inside the emitters; WrapFlags/PromoteWrap folds",
     ]
     # relations of this property on the upstream regression inputs (bounded, never proof)
-    rc = ctx.monitor("m_corpus_rel", "psearch", 400, ctx.seed, 16, json.dumps({"rel": ['pylua']}))
+    rc = ctx.monitor("m_corpus_rel", "psearch", 400, ctx.seed, 16, json.dumps({"rel": ['pylua', 'lists']}))
     ctx.bounded.append({"monitor": "m_corpus_rel", "inputs_tried": rc["tried"], "violation": rc["violation"],
                         "kind": 'every upstream regression input with wrap_python / wrap_lua flipped: C and Fortran files byte-identical'})
     if rc["violation"]:
